@@ -489,6 +489,87 @@ func genConsts() string {
 			fmt.Fprintf(&sb, "def websockets_sendMayQueueNil : Bool := %v  -- %s: the `[x]` branch leaves clientMessage nil for a non-string x\n", strings.Contains(src(sc), "blobMsg[0].(string); ok {") && !strings.Contains(src(sc), "clientMessage == nil"), rel)
 		}
 		fmt.Fprintf(&sb, "def websockets_injectedHeadersPath : List Bytes := %s\n", leanBytesList(stringList(env, "websocketShimInjectedHeadersPath", rel)))
+		// ShimBody's hook runs once per response, concurrently for concurrent requests: buffers it captures from the
+		// enclosing call (instead of allocating per response) are shared between responses
+		{
+			srel := "agent/websockets/shim.go"
+			sbFn := mustFunc(parseFile(srel), srel, "", "ShimBody")
+			var lit *ast.FuncLit
+			buffers := map[string]bool{}
+			for _, st := range sbFn.Body.List {
+				switch x := st.(type) {
+				case *ast.AssignStmt:
+					if x.Tok == token.DEFINE {
+						for i, l := range x.Lhs {
+							if i < len(x.Rhs) && len(x.Lhs) == len(x.Rhs) {
+								r := src(x.Rhs[i])
+								if strings.HasPrefix(r, "make(") || strings.HasPrefix(r, "new(") || strings.HasPrefix(r, "&") || strings.HasPrefix(r, "[]") || strings.HasPrefix(r, "map[") || strings.Contains(r, "Pool{") {
+									buffers[src(l)] = true
+								}
+							}
+						}
+					}
+				case *ast.DeclStmt:
+					if gd, ok := x.Decl.(*ast.GenDecl); ok {
+						for _, sp := range gd.Specs {
+							if vs, ok := sp.(*ast.ValueSpec); ok && vs.Type != nil && src(vs.Type) != "string" {
+								for _, n := range vs.Names {
+									buffers[n.Name] = true
+								}
+							}
+						}
+					}
+				case *ast.ReturnStmt:
+					for _, r := range x.Results {
+						if fl, ok := r.(*ast.FuncLit); ok {
+							lit = fl
+						}
+					}
+				}
+			}
+			if lit == nil {
+				fail("%s: ShimBody no longer returns a function literal", srel)
+			}
+			var shared []string
+			seen := map[string]bool{}
+			ast.Inspect(lit, func(n ast.Node) bool {
+				if id, ok := n.(*ast.Ident); ok && buffers[id.Name] && !seen[id.Name] {
+					seen[id.Name] = true
+					shared = append(shared, strconv.Quote(id.Name))
+				}
+				return true
+			})
+			fmt.Fprintf(&sb, "def websockets_shimBodySharedBuffers : List String := [%s]  -- %s ShimBody: buffers allocated once per ShimBody call and used inside the per-response hook\n", strings.Join(shared, ", "), srel)
+		}
+	}
+	// the size cap on a pending-list reply
+	{
+		rel := "agent/utils/utils.go"
+		f := parseFile(rel)
+		env := collectConsts(f)
+		pr := mustFunc(f, rel, "", "parseRequestIDs")
+		var caps []int64
+		ast.Inspect(pr, func(n ast.Node) bool {
+			if cl, ok := n.(*ast.CompositeLit); ok && strings.HasSuffix(src(cl.Type), "LimitedReader") {
+				for _, el := range cl.Elts {
+					if kv, ok := el.(*ast.KeyValueExpr); ok && src(kv.Key) == "N" {
+						if v, ok := evalInt(env, kv.Value); ok {
+							caps = append(caps, v)
+						}
+					}
+				}
+			}
+			if c, ok := n.(*ast.CallExpr); ok && (src(c.Fun) == "io.LimitReader" || src(c.Fun) == "http.MaxBytesReader") {
+				if v, ok := evalInt(env, c.Args[len(c.Args)-1]); ok {
+					caps = append(caps, v)
+				}
+			}
+			return true
+		})
+		if len(caps) != 1 {
+			fail("%s: parseRequestIDs: expected exactly one size cap on the reply, found %d", rel, len(caps))
+		}
+		emitInt("utils_pendingListByteCap", caps[0], rel+" parseRequestIDs")
 	}
 	// banner
 	{
@@ -503,6 +584,30 @@ func genConsts() string {
 		rel := "utils/tcpbridge/connection/connection.go"
 		env := collectConsts(parseFile(rel))
 		emitStr("connection_StreamingPath", mustString(env, "StreamingPath", rel), rel)
+		// the bridge backend's server: deadlines on whole requests or responses (http.Server.ReadTimeout/WriteTimeout,
+		// http.TimeoutHandler) would cut long-lived pass-through exchanges short
+		brel := "utils/tcpbridge/tcp-bridge-backend/tcp-bridge-backend.go"
+		var limits []string
+		ast.Inspect(parseFile(brel), func(n ast.Node) bool {
+			switch x := n.(type) {
+			case *ast.KeyValueExpr:
+				if k := src(x.Key); k == "ReadTimeout" || k == "WriteTimeout" {
+					limits = append(limits, strconv.Quote(k))
+				}
+			case *ast.AssignStmt:
+				for _, l := range x.Lhs {
+					if sel, ok := l.(*ast.SelectorExpr); ok && (sel.Sel.Name == "ReadTimeout" || sel.Sel.Name == "WriteTimeout") {
+						limits = append(limits, strconv.Quote(sel.Sel.Name))
+					}
+				}
+			case *ast.CallExpr:
+				if f := src(x.Fun); f == "http.TimeoutHandler" {
+					limits = append(limits, strconv.Quote(f))
+				}
+			}
+			return true
+		})
+		fmt.Fprintf(&sb, "def bridgeBackend_exchangeDeadlines : List String := [%s]  -- %s: whole-exchange deadlines configured on the serving side\n", strings.Join(limits, ", "), brel)
 	}
 	// app/store, app/cache, app
 	{
@@ -545,6 +650,24 @@ func genConsts() string {
 				}
 				return true
 			})
+			// the routing decision comes first: nothing is answered (not even from the cache) before LookupBackend said yes
+			lookupPos, cachePos := token.NoPos, token.NoPos
+			ast.Inspect(ph, func(n ast.Node) bool {
+				if c, ok := n.(*ast.CallExpr); ok {
+					switch src(c.Fun) {
+					case "s.LookupBackend":
+						if lookupPos == token.NoPos {
+							lookupPos = c.Pos()
+						}
+					case "readCachedResponse", "memcache.Get", "forwardResponse":
+						if cachePos == token.NoPos {
+							cachePos = c.Pos()
+						}
+					}
+				}
+				return true
+			})
+			fmt.Fprintf(&sb, "def app_lookupPrecedesAnswers : Bool := %v  -- %s proxyHandler: s.LookupBackend is called before the first of readCachedResponse/memcache.Get/forwardResponse\n", lookupPos != token.NoPos && (cachePos == token.NoPos || lookupPos < cachePos), prel)
 			fmt.Fprintf(&sb, "def app_lookupPathArg : String := %s  -- %s proxyHandler: third argument of s.LookupBackend\n", strconv.Quote(arg), prel)
 			// and the request ID it stores the request under comes from App Engine, not from the client
 			idArg := ""
